@@ -375,6 +375,67 @@ def c09(ctx):
                        "verdict equal to the list spelling's, ExtractLicenses reports list casing; non-trivial = satisfied")
 
 
+# --------------------------------------------------------------------------- lexeme vocabulary (C03 C04 C05 C15)
+def lex_vocab(ctx, rng, focus="all"):
+    roles = Roles(ctx, rng)
+    t = ctx.tables
+    act = set(t["active"])
+    plain, plain2, plain3 = rng.sample(roles.unranged, 3)
+    dep_fold = [x for x in t["deprecated"] if not x.endswith("+") and x + "-or-later" in act]
+    dep_plain = [x for x in t["deprecated"] if not x.endswith("+") and x + "-or-later" not in act and x + "-only" not in act]
+    listed_only = [x for x in t["active"] if x.endswith("-only")]
+    listed_later = [x for x in t["active"] if x.endswith("-or-later")]
+    exc = rng.choice(t["exceptions"])
+    low = {x.lower() for x in t["active"] + t["deprecated"] + t["exceptions"]}
+    unknown = next(u for u in ["FOO", "Foo-1.0", "x.y", "NotALicense"] if u.lower() not in low)
+    V = []
+
+    def add(text, kd, c=None):
+        V.append((text, kd, c if c is not None else text))
+
+    add(plain, "plainL")
+    if dep_fold:
+        add(rng.choice(dep_fold), "depFold")
+    add(plain2 + "-or-later", "unlistedLater", plain2)
+    add(unknown, "unknown")
+    add("LicenseRef-a", "LR", "a")
+    add("DocumentRef-d", "DR", "d")
+    for o in [":", "(", ")", "AND", "OR", "WITH"]:
+        add(o, "op")
+    add("+", "plus")
+    add(exc, "exc")
+    add("LicenseRef-", "bareLR")
+    add("#", "other")
+    if focus == "all":
+        if listed_only:
+            add(rng.choice(listed_only), "listedOnly")
+        if listed_later:
+            add(rng.choice(listed_later), "listedLater")
+        add(plain3 + "-only", "unlistedOnly", plain3)
+        if dep_plain:
+            add(rng.choice(dep_plain), "depPlain")
+        add(plain.lower() if plain.lower() != plain else plain3.lower(), "lowerL", plain if plain.lower() != plain else plain3)
+        add("and", "lowerop")
+        add("DocumentRef-", "bareDR")
+    return V
+
+
+def vocab_tla(V):
+    return "<<" + ",\n  ".join('[t |-> %s, kd |-> %s, c |-> %s]' % (Q(a), Q(b), Q(c)) for a, b, c in V) + ">>"
+
+
+def run_lex(ctx, name, rng, maxlex, seps, focus="all"):
+    V = lex_vocab(ctx, rng, focus)
+    ctx.write_params("MC_Lex_P", {"MaxLex": str(maxlex), "Seps": tla_seq(seps), "Vocab": vocab_tla(V)})
+    ctx.notes.append("%s: %d lexemes %s, <=%d per text, separators %s" % (name, len(V), [v[0] for v in V], maxlex, seps))
+    r = ctx.run_tlc(name, "MC_Lex", "MC_Lex", timeout=3000, reps=2 if ctx.tier == "thorough" else 1)
+    if r["violated"]:
+        raise Infra("model-level invariant %s failed in MC_Lex with Dev = {} (specification problem, not a verdict)" % r["violated"])
+    if r["summary"]["byKind"].get("str", 0) != r["distinct"] - 1:
+        raise Infra("%s: %d texts emitted, TLC found %d states" % (name, r["summary"]["byKind"].get("str", 0), r["distinct"]))
+    return r
+
+
 # --------------------------------------------------------------------------- C05
 def c05(ctx):
     rng = random.Random(ctx.seed)
@@ -389,6 +450,11 @@ def c05(ctx):
     n = r["summary"].get("tokenSequences", 0)
     if n != r["distinct"] - 1:
         raise Infra("token space: replayer enumerated %d sequences, TLC found %d states" % (n, r["distinct"]))
+    if thorough:
+        run_lex(ctx, "lex4", rng, 4, [" "], focus="core")
+        run_lex(ctx, "lex3", rng, 3, [" ", "  "])
+    else:
+        run_lex(ctx, "lex3", rng, 3, [" "])
     ctx.drive("trace", "invalid", 600 if thorough else 250, leaves=6)
     ctx.validate_trace("trace")
     return finish(ctx, relevant={"validity"},
